@@ -339,6 +339,30 @@ impl<Db: Database> StorageManager<Db> {
         None
     }
 
+    /// Retrieve a stored record as it was last committed, i.e. from the cache or the database,
+    /// ignoring the pending writes of a transaction which may currently be active.
+    pub async fn get_committed<St: Storable>(
+        &self,
+        id: &St::StorageKey,
+    ) -> Result<DbRecord, StorageError> {
+        if let Some(cache) = &self.cache {
+            if let Some(result) = cache.hit_test::<St>(id).await {
+                return Ok(result);
+            }
+        }
+
+        self.increment_metric(METRIC_GET);
+        let record = self
+            .tic_toc(METRIC_READ_TIME, self.db.get::<St>(id))
+            .await?;
+        if let Some(cache) = &self.cache {
+            cache
+                .batch_put_if_absent(slice::from_ref(&record))
+                .await;
+        }
+        Ok(record)
+    }
+
     /// Retrieve a stored record from the database.
     pub async fn get<St: Storable>(&self, id: &St::StorageKey) -> Result<DbRecord, StorageError> {
         if let Some(result) = self.get_from_cache_only::<St>(id).await {
